@@ -391,7 +391,24 @@ __CPROVER_assigns(g_rec_calls, g_rec_v, g_rec_d, g_clear_calls, g_clear_before_r
 """, sig_subs=[(r"int min_dim = 0", "int min_dim")], subs=[(r"rec_reset_filtration\(&root_, ", "rec_reset_stub(&root_, ")], canary=(r"min_dim\);", "min_dim + 1);"))
     return [Unit("value.reset_filtration.cache", "C03", [fn], enforce="reset_filtration", globals_=G, inputs=["in_v", "in_d"], replay=replay_by_native_search,
                  harness="int main(void) {\n  double in_v = nondet_double(); int in_d = nondet_int(); g_rec_calls = 0; g_clear_calls = 0; g_clear_before_rec = 0;\n  reset_filtration(in_v, in_d);\n  __CPROVER_assert(0, \"VP_REACH\");\n  return 0;\n}\n",
-                 desc="reset_filtration: the recursive worker runs once from the root with the given value and minimal dimension, and the filtration cache is dropped after the values changed")]
+                 desc="reset_filtration: the recursive worker runs once from the root with the given value and minimal dimension, and the filtration cache is dropped after the values changed")] + [reset_step_unit()]
+
+def reset_step_unit():
+    """rec_reset_filtration, loop body: the simplex is rewritten exactly when the remaining depth is <= 0, and its children are
+    visited exactly when it has some, one level deeper with the same value (the previous unit had the worker as an abstract stub)."""
+    G = ("#include <limits.h>\ntypedef double Filtration_value;\nunsigned g_assign_calls, g_rec_calls; double g_assign_v, g_rec_v; int g_rec_d;\ndouble nondet_double(void); int nondet_int(void);\n")
+    fn = Fn(ST, r"void rec_reset_filtration\(Siblings \* sib, const Filtration_value& filt_value, int min_depth\)", "reset_step", """
+__CPROVER_requires(g_assign_calls == 0 && g_rec_calls == 0 && filt_value == filt_value && min_depth > INT_MIN)
+__CPROVER_ensures(min_depth <= 0 ? (g_assign_calls == 1 && g_assign_v == filt_value) : g_assign_calls == 0)
+__CPROVER_ensures(hc != 0 ? (g_rec_calls == 1 && g_rec_v == filt_value && g_rec_d == min_depth - 1) : g_rec_calls == 0)
+__CPROVER_assigns(g_assign_calls, g_rec_calls, g_assign_v, g_rec_v, g_rec_d)
+""", piece={"kind": "loop", "ordinal": 0, "sig": "void reset_step(int hc, Filtration_value filt_value, int min_depth)"},
+            subs=[(r"sh->second\.assign_filtration\((\w+)\);", r"g_assign_calls++; g_assign_v = \1;"), (r"has_children\(sh\)", "hc"),
+                  (r"rec_reset_filtration\(sh->second\.children\(\), (\w+), ([^;]*)\);", r"g_rec_calls++; g_rec_v = \1; g_rec_d = \2;")],
+            canary=(r"min_depth <= 0", "min_depth < 0"))
+    return Unit("value.reset_filtration.step", "C03", [fn], enforce="reset_step", globals_=G, inputs=["in_hc", "in_v", "in_d"], replay=replay_by_native_search,
+                harness="int main(void) {\n  int in_hc = nondet_int(), in_d = nondet_int(); double in_v = nondet_double(); g_assign_calls = 0; g_rec_calls = 0;\n  reset_step(in_hc, in_v, in_d);\n  __CPROVER_assert(0, \"VP_REACH\");\n  return 0;\n}\n",
+                desc="rec_reset_filtration, one simplex (loop body): rewritten with the given value exactly when the remaining depth is <= 0 (dimension >= min_dim); its children are visited exactly when it has some, with depth - 1 and the same value")
 
 def expansion_units():
     """Simplex_tree::expansion(max_dim): nothing happens for max_dim <= 1; otherwise the filtration cache is dropped BEFORE the
